@@ -6,7 +6,7 @@ from .. import inputs
 from . import geom
 
 SPEC = dict(
-    lean_modules=['SmVerif.Props.C13'],
+    lean_modules=['SmVerif.Props.C13', 'SmVerif.Props.Structure'],
     groups=['TransformsNd', 'Transforms3d', 'Transforms2d', 'Vectors', 'Poses'],
     expected_untranslatable=('trinterp_T', 'trinterp_T_nostart'),
     partial=['exp(ad S) = Ad(exp S) and first-order agreement of tr2delta with the logarithm are explored numerically'],
